@@ -8,7 +8,7 @@ CONSTANT UserMenu <- UMr
 CONSTANT RoleMenu <- RMa
 CONSTANT DocMenu <- DMr
 CONSTANT Lims <- L0
-CONSTANT MaxSteps = 7
+CONSTANT MaxSteps = 6
 CONSTANT PageGap = FALSE
 SPECIFICATION Spec
 VIEW view
@@ -20,4 +20,6 @@ INVARIANT RevokedUnfetchable
 INVARIANT NoSpuriousRevoke
 INVARIANT ReplicaExactM
 INVARIANT NoSilentDropM
+INVARIANT CandExport
+INVARIANT NontrivExport
 CHECK_DEADLOCK FALSE
